@@ -199,6 +199,19 @@ def list_append(eng, st, args, kwargs, line):
     return val(st, NONE)
 
 
+@model("seqmethod.append")
+def seq_append(eng, st, args, kwargs, line):
+    """append on a list of symbolic length: rebinding every alias in this state to the longer sequence"""
+    old, item = args[0], args[1]
+    n0, f0 = old.n, old.elem
+    new = VSeq(smt.som(n0 + 1), lambda k: eng.ite(k == n0, item, f0(k)) if not z3.is_true(smt.simp(k == n0)) else item,
+               last=(n0, f0, item))
+    for name, v in list(st.env.items()):
+        if v is old:
+            st.env[name] = new
+    return val(st, NONE)
+
+
 @model("dictmethod.update")
 def dict_update(eng, st, args, kwargs, line):
     d, other = args[0], args[1]
